@@ -30,6 +30,10 @@ pub struct Case {
     /// consumer sleeps this many microseconds after every `pause_every` items (0 = never)
     pub pause_every: usize,
     pub pause_us: u32,
+    /// (item index, busy microseconds) spent inside the upstream iterator's next(), i.e. while the
+    /// worker holds the mutex (chaos lane)
+    #[serde(default)]
+    pub slow_src: Vec<(usize, u32)>,
 }
 
 pub fn tag(x: usize) -> u64 {
@@ -41,6 +45,7 @@ pub struct Source {
     pub n: usize,
     pub pulled: Arc<AtomicUsize>,
     pub dropped: Arc<AtomicBool>,
+    pub slow: Vec<(usize, u32)>,
 }
 
 impl Iterator for Source {
@@ -51,6 +56,11 @@ impl Iterator for Source {
         }
         let v = self.i;
         self.i += 1;
+        for (i, us) in &self.slow {
+            if *i == v {
+                busy(*us);
+            }
+        }
         self.pulled.fetch_add(1, Ordering::SeqCst);
         Some(v)
     }
@@ -133,6 +143,7 @@ impl Prop for C05 {
                 slow: vec![],
                 pause_every: 0,
                 pause_us: 0,
+                slow_src: vec![],
             };
         }
         if lane == "sched" {
@@ -159,6 +170,7 @@ impl Prop for C05 {
                 slow: vec![],
                 pause_every: 0,
                 pause_us: 0,
+                slow_src: vec![],
             }
         } else {
             let threads = *[0u8, 1, 2, 2, 3, 4, 4, 8, 16, 64]
@@ -198,6 +210,13 @@ impl Prop for C05 {
                 slow,
                 pause_every,
                 pause_us: rng.random_range(10..800),
+                slow_src: if n > 0 && rng.random_bool(0.3) {
+                    (0..rng.random_range(1..=3))
+                        .map(|_| (rng.random_range(0..n), rng.random_range(20..1500u32)))
+                        .collect()
+                } else {
+                    vec![]
+                },
             }
         }
     }
@@ -223,6 +242,7 @@ impl Prop for C05 {
             n: c.n,
             pulled: pulled.clone(),
             dropped: dropped.clone(),
+            slow: c.slow_src.clone(),
         };
         let counts2 = counts.clone();
         let slow = c.slow.clone();
@@ -419,6 +439,7 @@ impl Prop for C05 {
         obs.tag_if(c.n == 0, "empty-input");
         obs.tag_if(c.n < w, "fewer-items-than-workers");
         obs.tag_if(!c.slow.is_empty(), "slow-items");
+        obs.tag_if(!c.slow_src.is_empty(), "slow-upstream-items");
         obs.tag_if(c.pause_every > 0, "consumer-pauses");
         match &c.strategy {
             Strategy::Random => obs.tag_if(controlled, "strategy-random"),
@@ -447,6 +468,7 @@ fn check_plain(c: &Case, obs: &mut Obs) {
         n: c.n,
         pulled: pulled.clone(),
         dropped: dropped.clone(),
+        slow: vec![],
     };
     let counts2 = counts.clone();
     let f: text_utils::data::Pipeline<usize, u64> = Arc::new(move |x: usize| {
